@@ -329,9 +329,13 @@ pub fn run_l2(cfg: &Cfg, prop: L2) -> i32 {
                     if !r.chance(1, 3) {
                         victims.truncate(r.range(1, 3.min(victims.len())));
                     }
-                    let text = match r.below(3) {
+                    let text = match r.below(5) {
                         0 => "AS-DOES-NOT-EXIST".to_string(),
                         1 => failing_set.clone().unwrap_or_else(|| "AS-DOES-NOT-EXIST".into()),
+                        // a construct that cannot be evaluated without a peering: no prefix data
+                        // can be obtained for it either
+                        2 => "PeerAS".to_string(),
+                        3 => "AS65000 AND PeerAS".to_string(),
                         _ => {
                             irr_down = true;
                             String::new()
